@@ -215,7 +215,8 @@ class TaskSem(Semantics):
 
         lit_loops = {}
         for n in walk_no_nested(self.finfo.node):
-            if isinstance(n, ast.For) and isinstance(n.iter, (ast.Tuple, ast.List)):
+            if isinstance(n, ast.For) and isinstance(n.iter, (ast.Tuple, ast.List)) and not (isinstance(n.target, ast.Name) and n.target.id.startswith("__once")) \
+                    and not any(isinstance(x, ast.Await) for x in ast.walk(n)):
                 for sub_ in ast.walk(n):
                     if isinstance(sub_, (ast.With, ast.AsyncWith)):
                         lit_loops[id(sub_)] = n
